@@ -215,6 +215,7 @@ fn c18_worker(a: &Args) -> i32 {
     let pool_arc = std::sync::Arc::new({
         let mut p = Pool::load(&a.str("repo", &default_repo()));
         p.xl_den = a.u64("xl-den", 1500) as u32;
+        p.max_threads = a.u64("max-threads", 4) as usize;
         p
     });
     let rev = a.str("ref-order", "fwd") == "rev";
